@@ -8,17 +8,27 @@ resuspension, lateral sediment present/absent, point sources): mass entering + i
 downstream + decayed/trapped/floodplain + finally stored + flushed; nothing negative for non-negative inputs;
 mass is only ever discarded when the water volume is below the minimum volume.  The engine runs every case
 through the catalogue (outputs and final states, 1e-14 relative).
-Not covered (exp/pow kernels): InstreamFineSediment, StorageParticulateTrapping, InstreamDissolvedNutrientDecay.
+InstreamFineSediment is covered on the rational fragment of its power laws (outflow in {0, 1, 32}: x^1.4 = 0, 1, 128;
+width / Manning's n in {1, 32}; floodplain exponent 0 or below -750 where exp() is exactly 0 in float64): bank-full
+flow 0 vs > 0, flow below / at / above bank-full, deposition limited by the room left, remobilisation limited by the
+channel store (FineStoreBounds), neither, initial store given as a proportion, dry reach.
+Not covered (exp/pow kernels): StorageParticulateTrapping, InstreamDissolvedNutrientDecay.
 """
 from .. import exact
 
 
 def run(ctx):
-    cases = exact.tlc_cases(ctx, "ExactModels", "ExactConstituent.cfg", timeout=2400)
-    s = exact.run_exact(ctx, cases, ["exact"], "exact-constituent")
-    if s:
-        for m in s["mismatches"]:
-            ctx.report({"kind": m["kind"], "model": m["model"]}, "%s: %s | case %s" % (m["model"], m["detail"], str(m["case"].get("exact"))[:400]), m)
-    ctx.assumptions += ["claimed for the six constituent models whose kernels are rational; in-stream fine sediment, reservoir particulate trapping (pow/exp) and the decay-enabled dissolved models are not covered",
+    # three model groups, three TLC runs side by side (TLC enumerates initial states sequentially)
+    from concurrent.futures import ThreadPoolExecutor
+    cfgs = ["ExactLumped.cfg", "ExactConstituent.cfg", "ExactFineSediment.cfg"]
+    ctx.build_vh()
+    with ThreadPoolExecutor(len(cfgs)) as ex:
+        paths = list(ex.map(lambda cfg: exact.tlc_cases(ctx, "ExactModels", cfg, timeout=2400, workers=4), cfgs))
+    for cfg, cases in zip(cfgs, paths):
+        s = exact.run_exact(ctx, cases, ["exact"], cfg[:-4])
+        if s:
+            for m in s["mismatches"]:
+                ctx.report({"kind": m["kind"], "model": m["model"]}, "%s: %s | case %s" % (m["model"], m["detail"], str(m["case"].get("exact"))[:400]), m)
+    ctx.assumptions += ["claimed for the six constituent models whose kernels are rational and for in-stream fine sediment on the rational fragment of its power laws; reservoir particulate trapping (pow/exp) and the decay-enabled dissolved models are not covered",
                         "grid: T=2 (particulate nutrient: T=1 with all branches), loads/flows/volumes from small rational sets incl. zero flow and an empty store"]
     return ctx.finish("model_checking")
